@@ -51,7 +51,8 @@ for c in man["checks"]:
 asbuilt = "\n".join(ab)
 p = ROOT / "DESIGN.md"
 s = p.read_text()
-for name, body in (("FINDINGS", findings), ("SEEDED", seeded), ("STATUS", status), ("ASBUILT", asbuilt), ("REFACTORS", refactors)):
+sourcetie = (ROOT / "tools/prompts/built/translator_DESIGN_section.md").read_text().rstrip() + "\n\n"
+for name, body in (("FINDINGS", findings), ("SEEDED", seeded), ("STATUS", status), ("ASBUILT", asbuilt), ("REFACTORS", refactors), ("SOURCETIE", sourcetie)):
     b, e = f"<!-- BEGIN {name} -->", f"<!-- END {name} -->"
     if b in s:
         s = s[: s.index(b) + len(b)] + "\n" + body + "\n" + s[s.index(e):]
